@@ -27,6 +27,17 @@ def to_smt2(pc, goal=None, get_model=False):
     return txt
 
 
+def core_text(full, nglob):
+    """The VC without its first `nglob` assertions (the global well-typedness facts), cut out of the full SMT-LIB text
+    (z3 prints one self-contained `(assert ...)` per formula, in order, each starting at a line start)."""
+    if not nglob:
+        return None
+    idx = [m.start() for m in re.finditer(r"^\(assert", full, re.M)]
+    if len(idx) <= nglob:
+        return None
+    return full[:idx[0]] + full[idx[nglob]:].replace("(get-model)", "")
+
+
 def _run(cmd, text, timeout_s):
     t0 = time.time()
     try:
@@ -161,7 +172,7 @@ def discharge_texts(texts, timeout_s=10, jobs=None, cores=None):
     todo = list(range(len(texts)))
     if cores is not None:
         with cf.ThreadPoolExecutor(max_workers=jobs or max(2, NPROC - 2)) as ex:
-            futs = {ex.submit(solve_text, cores[i], quick, None, ["z3new"]): i for i in todo if cores[i]}
+            futs = {ex.submit(solve_text, cores[i], min(quick, 2), None, ["z3new"]): i for i in todo if cores[i]}
             for f in cf.as_completed(futs):
                 r = _only_unsat(f.result(), "core")
                 if r["status"] == "unsat":
@@ -226,7 +237,7 @@ def discharge(obligations, timeout_s=10, jobs=None, progress=None):
     Phase 2: what is left on the whole portfolio concurrently (z3 5.1, cvc5, z3 4.8), fewer VCs at a time so
     that the budget is not eaten by contention."""
     texts = [to_smt2(o.pc, o.goal, get_model=True) for o in obligations]
-    cores = [to_smt2(o.pc[o.nglob:], o.goal) if getattr(o, "nglob", 0) else None for o in obligations]
+    cores = [core_text(t, getattr(o, "nglob", 0)) for t, o in zip(texts, obligations)]
     results = discharge_texts(texts, timeout_s, jobs, cores)
     for i, r in enumerate(results):
         r["smt2_len"] = len(texts[i])
